@@ -291,7 +291,11 @@ def witness(case):
     if alg == "ecdsa" and "secp256r1" not in c["eccCurves"]:
         return None
     sig_ok = True
-    if v == (3, 3):
+    # (below TLS 1.2 the signature format is fixed, but the implementation
+    # still intersects the lists when the client sends the extension; the
+    # premise 'shared signature scheme' is evaluated the same way to stay an
+    # under-approximation)
+    if v <= (3, 3):
         if alg == "rsa":
             common = [h for h in c["rsaSigHashes"]
                       if h in s["rsaSigHashes"]]
@@ -323,6 +327,10 @@ def witness(case):
             continue
         if su.kx == "dhe" and not ff:
             continue
+        if su.kx == "dhe" and not all(
+                c["minKeySize"] <= int(g[5:]) <= c["maxKeySize"]
+                for g in c["dhGroups"]):
+            continue    # client advertises groups outside its own window
         # the server must not be lured into a stronger-looking dead end:
         # require that *every* kx family it might prefer is also viable
         return (v, sid)
@@ -335,7 +343,9 @@ def all_viable(case, v):
     c, s = case["c"], case["s"]
     curves = [x for x in c["eccCurves"] if x in s["eccCurves"]]
     ff = [x for x in c["dhGroups"] if x in s["dhGroups"]]
-    return bool(curves) and bool(ff)
+    ff_ok = all(c["minKeySize"] <= int(g[5:]) <= c["maxKeySize"]
+                for g in c["dhGroups"])
+    return bool(curves) and bool(ff) and ff_ok
 
 
 def check_connect(case):
